@@ -300,3 +300,18 @@ var _ merger.TypeURLMap
 //@ func getArgumentListChildrenVariablesList
 //@ props C07
 //@ end
+
+// C01/C06: sanitising a selection set drops a field only when its RESPONSE KEY (alias, which the parser defaults to the
+// name) is already taken - selecting the same field twice under two keys (`first: saveAuthor(...) saveAuthor(...)`) keeps both
+//@ define keyTaken(l []ast.Selection, key string) bool = exists(m, 0, len(l), is(l[m], *ast.Field) && l[m].(*ast.Field).Alias == key)
+
+//@ func selectionSetHasFieldWithAlias
+//@ props C01 C06 C07
+//@ ensures[spec] result == keyTaken(ss, alias)
+//@ loop 0 invariant[none-so-far] forall(m, 0, it, !(is(ss[m], *ast.Field) && ss[m].(*ast.Field).Alias == alias))
+//@ end
+
+//@ func addSelectionSetToSanitizedResult$1
+//@ props C01 C06 C07
+//@ ensures[dropped-only-when-key-taken] result == !(is(sel, *ast.Field) && keyTaken(s, sel.(*ast.Field).Alias))
+//@ end
